@@ -678,30 +678,34 @@ def run_xml(case):
     return tr
 
 
+WRITE_TO_TAGS = ('Name', 'Value', 'Label', 'DataSpace', 'TransformedSpace', 'MatrixData', 'Data')
+
+
 def events_line(events):
+    """protocol line for the recorded handler calls + the answers of the external functions (zlib, float parsing)
+    for every text the parser will hand to read_data_block (= text pending at a tag while write_to == 'Data')"""
     toks, tables = [], []
-    cur_da, in_data, buf, alltext = None, False, [], []
+    write_to, buf, alltext = None, [], []
     for ev in events:
-        if ev[0] == 'S':
-            toks.append('~'.join(['S', ev[1]] + [f'{k}={enc_text(v)}' for k, v in ev[2].items()]))
-            if ev[1] == 'DataArray':
-                cur_da = ev[2]
-            if ev[1] == 'Data':
-                in_data, buf = True, []
-            alltext.append(' ')
-        elif ev[0] == 'C':
+        if ev[0] == 'C':
             toks.append('C~' + enc_text(ev[1]))
             alltext.append(ev[1])
-            if in_data:
-                buf.append(ev[1])
+            buf.append(ev[1])
+            continue
+        if write_to == 'Data' and buf:
+            for t in tables_for(''.join(buf)):
+                if t not in tables:
+                    tables.append(t)
+        buf = []
+        alltext.append(' ')
+        if ev[0] == 'S':
+            toks.append('~'.join(['S', ev[1]] + [f'{k}={enc_text(v)}' for k, v in ev[2].items()]))
+            if ev[1] in WRITE_TO_TAGS:
+                write_to = ev[1]
         else:
             toks.append('E~' + ev[1])
-            alltext.append(' ')
-            if ev[1] == 'Data' and in_data:
-                for t in tables_for(''.join(buf)):
-                    if t not in tables:
-                        tables.append(t)
-                in_data = False
+            if ev[1] in WRITE_TO_TAGS:
+                write_to = None
     if any(ev[0] == 'S' and ev[1] == 'MatrixData' for ev in events):
         # float64 answers for every number-like token of the document (np.loadtxt of <MatrixData>)
         for t in sorted(set(''.join(alltext).split())):
@@ -947,7 +951,7 @@ def signature(case, what):
         if d.get('none') or (d['enc'] == 'B64BIN' and 0 in d['shape'] and 'text' not in d):
             return 'block:' + tag + ':zero'
         return f'block:{tag}:{"ascii" if d["enc"] == "ASCII" else "base64"}'
-    return op + ':' + tag
+    return tag if op == 'hist' else op + ':' + tag
 
 
 def shrink_candidates(case):
